@@ -122,6 +122,9 @@ class Symbol(ExpressionToken):
         if extern_mapping:
             extern = compiler.symbols.get(extern_mapping[1])
             if extern:
+                # The current file may still define its own symbol with this name further down, and that
+                # definition takes precedence: don't bind to another file's symbol until everything is compiled
+                not_ready()
                 return extern
 
         not_ready()
